@@ -10,6 +10,9 @@ Decides:
                        timers) and never rand/srand/random_device
   SEEDED-PRNG          cola::PseudoRandom is a pure linear congruential generator: constant default seed, state only in the object
   ID-TIEBREAK          CompareConstraints (both solver copies): equal slack is resolved through left->id, then right->id -- never by address
+  GLOBAL-STATE         mutable process-wide state (globals, static members, static locals) and its writers are exactly the reviewed ones
+  PAIRED-BORDERS       (shared with C09) the process-wide Rectangle borders are restored on every path of every function that changes them
+  TURN-PRUNE-MIRROR    (shared with C05) the x and y turn-pruning blocks of the A* search are mirror images (orientation independence)
   INIT                 (shared with C15) no constructor leaves a scalar member indeterminate that is later read
 Not decided: translation / rotation / permutation invariance of numerical results.
 """
@@ -219,6 +222,66 @@ def rule_id_tiebreak(chk, prog):
         (r.bad if bad else r.ok)(ns + "::CompareConstraints::operator()", fn.where(), bad or "")
 
 
+def rule_global_state(chk, prog):
+    r = chk.rule("GLOBAL-STATE", "the mutable process-wide state of the libraries (non-const namespace-scope variables, static data members, "
+                 "static locals) and the functions that store to it are exactly the reviewed entries of tables/global_state.json: anything "
+                 "else would let earlier calls influence later results", floor=9)
+    table = json.load(open(os.path.join(VERIF, "tables", "global_state.json")))
+    tg, tl = table["globals"], table["static_locals"]
+    mutable = {q: v for q, v in prog.vars.items() if "const" not in str(v.get("t", "")).replace("const char *", "")}
+    writers = {}
+    for f in prog.all_functions():
+        if f.tmpl == "pattern":
+            continue
+        for lhs, node, op in writes(f):
+            e = strip_casts(lhs)
+            while e is not None and e.get("k") in ("ArraySubscriptExpr",):
+                e = strip_casts(e["ch"][0])
+            if e is not None and e.get("rk") == "Var" and str(e.get("ref")) in prog.vars:
+                writers.setdefault(str(e.get("ref")), set()).add(f.q)
+        # mutation through non-const member calls on a global container (push_back ...)
+        for n in calls(f):
+            if n.get("k") == "CXXMemberCallExpr" and not n.get("constm"):
+                o = call_object(n)
+                o = strip_casts(o) if o is not None else None
+                if o is not None and o.get("k") == "DeclRefExpr" and str(o.get("ref")) in mutable and \
+                        _basename_(n.get("cname", "")) in ("push_back", "insert", "clear", "erase", "resize", "emplace_back", "pop_back", "assign"):
+                    writers.setdefault(str(o.get("ref")), set()).add(f.q)
+    for q in sorted(set(mutable) | set(tg)):
+        r.count()
+        if q not in mutable:
+            r.ok(q, "", "no longer mutable / removed")
+            continue
+        v = mutable[q]
+        where = "%s:%s" % (str(v.get("file", "")).replace("/repo/", ""), v.get("l"))
+        if q not in tg:
+            r.bad(q, where, "new mutable process-wide variable `%s` (%s): state that survives between calls" % (q, v.get("t")))
+            continue
+        extra = sorted(writers.get(q, set()) - set(tg[q]["writers"]))
+        if extra:
+            r.bad(q, where, "`%s` is now also written by %s (reviewed writers: %s)" % (q, extra, tg[q]["writers"]))
+        else:
+            r.ok(q, where, "reviewed: " + tg[q]["reason"])
+    seen = set()
+    for f in prog.all_functions():
+        for n in f.nodes():
+            if n.get("k") == "VarDecl" and (n.get("static") or n.get("sc") == "static") and "const" not in str(n.get("t", "")):
+                key = "%s: %s" % (re.sub(r"<[^<>]*>", "", f.q), n.get("name"))
+                if key in seen:
+                    continue
+                seen.add(key)
+                r.count()
+                if key in tl:
+                    r.ok(key, f.loc(n), "reviewed: " + tl[key])
+                else:
+                    r.bad(key, f.loc(n), "new mutable static local `%s` in %s: state that survives between calls" % (n.get("name"), f.q))
+
+
+def _basename_(cname):
+    from ..microai.interp import _basename
+    return _basename(cname)
+
+
 def run(chk):
     prog = chk.load()
     reviewed = load_reviewed()
@@ -227,4 +290,13 @@ def run(chk):
     rule_nondet(chk, prog, reviewed)
     rule_prng(chk, prog)
     rule_id_tiebreak(chk, prog)
+    rule_global_state(chk, prog)
+    from .c09 import rule_paired_borders
+    from .c05 import rule_turn_prune_mirror
+    rule_paired_borders(chk, prog)
+    rule_turn_prune_mirror(chk, prog)
+    from ..rules import mirrors
+    r = chk.rule("MIRROR", "the x and y twins of the rectangle / box accessors and movers are mirror images (tables/mirrors.json): a "
+                 "transposed scene is treated as the transpose", floor=8)
+    mirrors.check(r, prog, ["vpsc::Rectangle::", "Avoid::Box::", "topology::LayoutObstacle::"], sample=chk.sample)
     rule_init(chk, prog, prop="C20")
